@@ -239,7 +239,7 @@ def wl_stft(ctx, idx, rng):
     tail = int(rng.integers(0, P))
     N = nseg * P + tail
     clsname = gen.pick(rng, ["BasebandSignal", "BasebandSignal", "DualPolarizationSignal"])
-    extra = (2,) if clsname == "DualPolarizationSignal" else gen.pick(rng, [(), (), (3,)])
+    extra = gen.pick(rng, [(), (), (2,), (2, 3)]) if clsname == "DualPolarizationSignal" else gen.pick(rng, [(), (), (3,), (2, 2), (2, 3)])
     srhz = 10.0 ** rng.uniform(2, 8)
     rate = gen.pick(rng, [srhz * u.Hz, (srhz / 1e6) * u.MHz, (srhz / 1e3) * u.kHz])
     fchz = max(10.0 ** rng.uniform(8, 10), srhz * nchan * 4)
@@ -248,11 +248,14 @@ def wl_stft(ctx, idx, rng):
     # one exact-bin tone per channel: baseband frequency k * sr / P
     ks = [int(rng.integers(-(P // 2), (P - 1) // 2 + 1)) for _ in range(nchan)]
     n = np.arange(N)
-    shape = (N, nchan) + (((2,) if clsname == "DualPolarizationSignal" else ()) + (tuple(extra) if clsname != "DualPolarizationSignal" else ()))
+    shape = (N, nchan) + ((2,) if clsname == "DualPolarizationSignal" else ()) + tuple(extra)
     x = 1e-3 * (rng.standard_normal(shape) + 1j * rng.standard_normal(shape))
     for i, k in enumerate(ks):
         tone = np.exp(2j * np.pi * k * n / P)
         x[:, i] += tone.reshape((N,) + (1,) * (x.ndim - 2))
+    # every trailing component (polarisation, antenna, ...) gets its own amplitude, so that components cannot be exchanged unnoticed
+    comp_amp = 1.0 + np.arange(int(np.prod(shape[2:])) if len(shape) > 2 else 1).reshape(shape[2:]) * 0.5
+    x = x * comp_amp
     x = x.astype(dtype)
     use_dask = rng.random() < 0.15
     start = gen.rand_time(rng, p_none=0.3)
@@ -310,6 +313,17 @@ def wl_stft(ctx, idx, rng):
             ctx.violation(o, f"exact-bin tone of channel {i} is spread over several sub-channels ({seg[jpk] / seg.sum():.3f} in the peak)",
                           None, dict(feats, what="tone_leak"))
             break
+    # power per (channel, trailing component) is kept component by component (Parseval over each channel's sub-channels)
+    if y.ndim > 2 and N // P >= 1:
+        with probes.quiet():
+            xk = gen.np_data(sig)[:N - N % P].astype(np.complex128)
+        px = np.sum(np.abs(xk) ** 2, axis=0)
+        py = np.sum(np.abs(y.astype(np.complex128).reshape((y.shape[0], nchan, P) + y.shape[2:])) ** 2, axis=(0, 2))
+        ctx.count("oracle[stft_component_power]")
+        if px.shape != py.shape or np.any(np.abs(py / py.sum() - px / px.sum()) > 1e-3 * (px / px.sum())):
+            ctx.violation(o, f"stft moved power between trailing components: input power share per (channel, component) "
+                             f"{np.round(px / px.sum(), 4).ravel()[:8].tolist()}, output {np.round(py / py.sum(), 4).ravel()[:8].tolist() if px.shape == py.shape else py.shape}",
+                          None, dict(feats, what="component_power", trailing=len(shape) - 2))
     # ISTFT(STFT(z)) == z[:N - N % P]
     back, exc = ctx.call(o, pb.contrib.istft, st, nperseg=P, where="istft", features=feats)
     if exc is not None:
